@@ -440,7 +440,7 @@ def parse_wap_listing(body: bytes):
     text = _dec(body)
     # layout, not styling: soft-key elements and a separate title paragraph may precede the paragraph of entries;
     # the title may also be the first line of that paragraph
-    m = re.search(r"<card\b[^>]*>\s*(?:<do\b[^>]*>.*?</do>\s*)*(?:<p\b[^>]*>\s*(?:<big>\s*)?<b>[^\n]*?</b>(?:\s*</big>)?\s*</p>\s*)?<p>\n(?:<b>[^\n]*?</b>\s*<br\s*/>\n?)?(.*)</p>\s*</card>\s*</wml>\s*$", text, re.S | re.I)
+    m = re.search(r"<card\b[^>]*>\s*(?:<do\b[^>]*>.*?</do>\s*)*(?:<p\b[^>]*>\s*(?:<big>\s*)?<b>.*?</b>(?:\s*</big>)?\s*</p>\s*)?<p>\n(?:<b>.*?</b>\s*<br\s*/>\n?)?(.*)</p>\s*</card>\s*</wml>\s*$", text, re.S | re.I)
     if not m:
         raise ValueError("no WML directory card")
     inner = m.group(1)
